@@ -1032,6 +1032,9 @@ def getitem(world, ex, o, k):
         if isinstance(k, slice) and isinstance(k.start, int) and k.start < 0 and k.stop is None and k.step is None \
                 and -k.start <= len(o.items):
             return list(o.items[k.start:])
+        if isinstance(k, slice) and k.start in (0, None) and k.stop is None and k.step is None:
+            # l[0:] / l[:] (also what l[-0:] means): a copy of the whole list, the untouched older part included
+            return PrefList(o.prefix_len, list(o.items), o.tag)
         if isinstance(k, int) and k >= 0 and not is_z3(o.prefix_len) and o.prefix_len == 0:
             if k < len(o.items):
                 return o.items[k]
